@@ -139,6 +139,13 @@ pub fn limit_strings() -> Vec<String> {
         out.push(format!("1.2.3-{}", n));
         out.push(format!("1.2.3+{}", n));
         out.push(format!("1.2.3-a.{}.b", n));
+        // a big / overflowing numeric identifier next to small numeric ones, in both lists
+        out.push(format!("1.2.3-{}.1", n));
+        out.push(format!("1.2.3-1.{}.2", n));
+        out.push(format!("1.2.3-{}.{}", n, n));
+        out.push(format!("1.2.3+{}.7", n));
+        out.push(format!("1.2.3-{}.0+{}.1", n, n));
+        out.push(format!("1.2.3-0.{}+5", n));
         out.push(format!("{n}.{n}.{n}", n = n));
     }
     for target in gs::lengths_near_limit() {
@@ -154,6 +161,13 @@ pub fn limit_strings() -> Vec<String> {
         out.push(format!("1.2.3{}", "a".repeat(target.saturating_sub(5))));
         out.push(format!("{}.2.3", "1".repeat(target.saturating_sub(4))));
         out.push(format!("1.2.3-{}", "a.".repeat(target.saturating_sub(6) / 2)));
+        // over-long (or just fitting) through zero padding of a component
+        for pos in 0..3 {
+            let mut c = vec!["1".to_string(), "2".to_string(), "3".to_string()];
+            c[pos] = format!("{}{}", "0".repeat(target.saturating_sub(5)), c[pos]);
+            out.push(c.join("."));
+        }
+        out.push(format!("{}1.{}2.{}3", "0".repeat(target / 3), "0".repeat(target / 3), "0".repeat(target / 3)));
         out.push("é".repeat(target / 2));
         out.push(" ".repeat(target));
         out.push(format!("{}1.2.3", " ".repeat(target.saturating_sub(5))));
